@@ -341,6 +341,11 @@ def proof_part(ck, tier, selftest=False):
         t0 = time.time()
         pr = vlib.sh([tl, "--threads", "8", "--stretch", "3", "--cleanfp", "CacheProof.tla"], cwd=d, timeout=1500)
         out = pr.stdout + "\n" + pr.stderr
+        if pr.returncode != 0 and not mutate:
+            # a loaded machine can make a back-end time out: once more with longer timeouts (proved obligations are
+            # kept in the fingerprint file, only the failed ones are tried again)
+            pr = vlib.sh([tl, "--threads", "4", "--stretch", "10", "CacheProof.tla"], cwd=d, timeout=2400)
+            out = pr.stdout + "\n" + pr.stderr
         m = re.search(r"All (\d+) obligations? proved", out)
         f = re.search(r"(\d+)/(\d+) obligations? failed", out)
         shutil.rmtree(os.path.join(d, ".tlacache"), ignore_errors=True)
